@@ -11,8 +11,9 @@ def check(tier, seed, only=None):
         ("submit", "work", "reference", "per_param"),
         ("resubmit", "work", "reference", "per_param"),
         ("flush", "work", "reference", "per_param"),
-    ], only)
+    ], only, extra=p_ctx_common.base_jobs(tier, ("submit",)))
     rep.default_replays()
+    p_ctx_common.add_mgr_bounded(rep, tier, seed)
     rep.notes.append(
         "proto aspect: conservation ghost g_held (exactly the held context is submitted / returned), g_n < lanes, "
         "flush NULL <=> manager empty, returned status exactly IDLE or COMPLETE (COMPLETE iff LAST accepted), "
